@@ -14,14 +14,15 @@ PAIR_OPS = ["find", "find_buf", "match_up_to", "match_up_to_str", "ends_with", "
             "path_join_fmt", "parent_path", "path_file_name"]
 # the same operation reached another way (text handed to the formatting machinery in pieces):
 # judged by the definition of the operation it is an alias of
-ALIAS = {"path_join_fmt_split": "path_join_fmt", "from_format_split": "from_format"}
-PAIR_OPS_RUN = PAIR_OPS + ["path_join_fmt_split"]
+ALIAS = {"path_join_fmt_split": "path_join_fmt", "from_format_split": "from_format",
+         "path_join_fmt_chars": "path_join_fmt", "from_format_chars": "from_format"}
+PAIR_OPS_RUN = PAIR_OPS + ["path_join_fmt_split", "path_join_fmt_chars"]
 CTOR_OPS = ["str_try_from_bytes", "str_try_from_str", "string_try_from_bytes", "string_try_from_vec",
             "string_try_from_str", "string_try_from_string", "string_from_str", "from_format",
             "from_str_checked"]
 
 
-CTOR_OPS_RUN = CTOR_OPS + ["from_format_split"]
+CTOR_OPS_RUN = CTOR_OPS + ["from_format_split", "from_format_chars"]
 
 
 def rec(op, a, b, out, view):
@@ -82,7 +83,7 @@ def run_driver(chk, bindir, mode, vecs, tag):
         if p.returncode == 0:
             break
         if p.returncode == 42 and last is not None:
-            if mode == "findbuf":   # one operation per vector: resume behind it
+            if mode in ("findbuf", "mstr"):   # one operation per vector: resume behind it
                 if dead:
                     break           # the only operation of this family failed 4 times: enough
                 skip = last + 1
